@@ -53,10 +53,20 @@ func visibleCorpus(c *kit.Corpus, caller int) kit.Corpus {
 	return out
 }
 
+// allowedIDs is set per caller: ids of the repositories the caller may see
+// (repositories of different tenants may share a name).
+var allowedIDs map[uint32]bool
+var allowedURL map[string]map[string]bool
+
 func checkResultVisible(allowed map[string]bool, res *zoekt.SearchResult, what string) error {
 	for _, f := range res.Files {
-		if !allowed[f.Repository] {
-			return kit.Fail("tenant-leak-file", "%s: file %s of repository %s returned", what, f.FileName, f.Repository)
+		if !allowed[f.Repository] || !allowedIDs[f.RepositoryID] {
+			return kit.Fail("tenant-leak-file", "%s: file %s of repository %s (id %d) returned", what, f.FileName, f.Repository, f.RepositoryID)
+		}
+	}
+	for name, tpl := range res.RepoURLs {
+		if want, ok := allowedURL[name]; ok && !want[tpl] {
+			return kit.Fail("tenant-leak-repourl", "%s: RepoURLs[%s] = %q is the template of a repository the caller may not see (visible ones: %v)", what, name, tpl, want)
 		}
 	}
 	for name := range res.RepoURLs {
@@ -91,7 +101,14 @@ func runC23(t *testing.T, rec *kit.Recorder, c c23Case) error {
 		ctx := callerCtx(caller)
 		vis := visibleCorpus(&c.Corpus, caller)
 		allowed := map[string]bool{}
+		allowedIDs = map[uint32]bool{}
+		allowedURL = map[string]map[string]bool{}
 		for i := range vis.Repos {
+			allowedIDs[vis.Repos[i].ID] = true
+			if allowedURL[vis.Repos[i].Name] == nil {
+				allowedURL[vis.Repos[i].Name] = map[string]bool{}
+			}
+			allowedURL[vis.Repos[i].Name][vis.Repos[i].FileURL] = true
 			allowed[vis.Repos[i].Name] = true
 			for _, p := range vis.Repos[i].SubRepos {
 				allowed[vis.Repos[i].Name+"/"+p] = true
@@ -135,6 +152,20 @@ func runC23(t *testing.T, rec *kit.Recorder, c c23Case) error {
 			}
 			if m, x := diffSets(want, got); len(m)+len(x) > 0 {
 				return kit.Fail("tenant-incomplete", "%s (shard Search): missing %q extra %q", what, m, x)
+			}
+			// match limits make the search walk the documents differently; the
+			// access invariant must hold for every setting
+			for _, lo := range []zoekt.SearchOptions{{ShardRepoMaxMatchCount: 1}, {ShardRepoMaxMatchCount: 2}, {ShardMaxMatchCount: 1}, {ShardRepoMaxMatchCount: 1, ChunkMatches: true}} {
+				for _, s := range e.built.Shards {
+					o := lo
+					res, err := s.Search(ctx, q, &o)
+					if err != nil {
+						break
+					}
+					if err := checkResultVisible(allowed, res, fmt.Sprintf("%s (shard Search, ShardRepoMaxMatchCount=%d ShardMaxMatchCount=%d)", what, lo.ShardRepoMaxMatchCount, lo.ShardMaxMatchCount)); err != nil {
+						return err
+					}
+				}
 			}
 			// directory searcher: Search
 			o := opts
@@ -182,8 +213,8 @@ func runC23(t *testing.T, rec *kit.Recorder, c c23Case) error {
 			}
 			checkList := func(rl *zoekt.RepoList, what string) error {
 				for _, e := range rl.Repos {
-					if !allowed[e.Repository.Name] {
-						return kit.Fail("tenant-leak-list", "%s: repository %s listed", what, e.Repository.Name)
+					if !allowed[e.Repository.Name] || !idAllowed[e.Repository.ID] {
+						return kit.Fail("tenant-leak-list", "%s: repository %s (id %d, tenant %d) listed", what, e.Repository.Name, e.Repository.ID, e.Repository.TenantID)
 					}
 				}
 				for id := range rl.ReposMap {
@@ -203,6 +234,34 @@ func runC23(t *testing.T, rec *kit.Recorder, c c23Case) error {
 					return err
 				}
 			}
+			// listings restricted by a query take another path than List(TRUE)
+			for _, qs := range c.Queries {
+				lq, err := qs.Q()
+				if err != nil {
+					continue
+				}
+				if _, err := kit.Expected(&vis, lq); err != nil {
+					continue
+				}
+				for _, s := range e.built.Shards {
+					var lrl *zoekt.RepoList
+					if err := kit.Guard(func() error {
+						var err error
+						lrl, err = s.List(ctx, lq, lopts)
+						return err
+					}); err != nil {
+						break
+					}
+					if err := checkList(lrl, fmt.Sprintf("caller %d shard List(%s) field %v", caller, lq, field)); err != nil {
+						return err
+					}
+				}
+				if lrl, err := e.dir.List(ctx, lq, lopts); err == nil {
+					if err := checkList(lrl, fmt.Sprintf("caller %d List(%s) field %v", caller, lq, field)); err != nil {
+						return err
+					}
+				}
+			}
 			rl, err := e.dir.List(ctx, &query.Const{Value: true}, lopts)
 			if err != nil {
 				return kit.Fail("list-error", "%v", err)
@@ -220,8 +279,9 @@ func runC23(t *testing.T, rec *kit.Recorder, c c23Case) error {
 						wantNames = append(wantNames, vis.Repos[i].Name)
 					}
 				}
-				sort.Strings(names)
-				sort.Strings(wantNames)
+				// compared as sets: the sharded List keys its entries by name, and
+				// only the system caller can see two repositories of one name
+				names, wantNames = uniqSorted(names), uniqSorted(wantNames)
 				if fmt.Sprint(names) != fmt.Sprint(wantNames) {
 					return kit.Fail("tenant-list-incomplete", "caller %d List: got %v want %v", caller, names, wantNames)
 				}
@@ -251,10 +311,31 @@ func TestVerif_C23(t *testing.T) {
 		c.Queries = append(c.Queries, kit.QSpec{Op: "const", Val: true},
 			kit.QSpec{Op: "type", Num: float64(query.TypeRepo), Kids: []kit.QSpec{{Op: "substr", Pat: kit.Pick(g, []string{"foo", "a", "needle"}, "trp")}}},
 			kit.QSpec{Op: "substr", Pat: kit.Pick(g, []string{"foo", "a", "o"}, "broad")})
+		// repositories of different tenants may share a name (the id differs)
+		for i := range c.Corpus.Repos {
+			r := &c.Corpus.Repos[i]
+			if i > 0 && g.Bool(35, "samename") && c.Corpus.Repos[i-1].TenantID != r.TenantID {
+				r.Name = c.Corpus.Repos[i-1].Name
+			}
+			r.FileURL = fmt.Sprintf("http://tenant%d.example/%s/blob/{{.Version}}/{{.Path}}", r.TenantID, r.Name)
+		}
 		n := g.Int(2, 3, "ncallers")
 		for i := 0; i < n; i++ {
 			c.Callers = append(c.Callers, kit.Pick(g, []int{1, 2, 3, 1, 2, 0, -1}, "caller"))
 		}
 		return c
 	}, func(c c23Case) error { return runC23(t, rec, c) })
+}
+
+func uniqSorted(in []string) []string {
+	m := map[string]bool{}
+	for _, s := range in {
+		m[s] = true
+	}
+	out := make([]string, 0, len(m))
+	for s := range m {
+		out = append(out, s)
+	}
+	sort.Strings(out)
+	return out
 }
